@@ -7,7 +7,7 @@
    Record ids are 0,1,2,... in write order; view = all ids in the retained files read oldest to newest.   *)
 From Coq Require Import List ZArith Bool.
 Import ListNotations.
-Require Import V.C23.Model V.C23.Proofs V.C23.Multi V.C23.Newest.
+Require Import V.C23.Model V.C23.Proofs V.C23.Multi V.C23.Newest V.C23.Surface.
 Open Scope Z_scope.
 
 (* Retained files read oldest to newest, followed by what is still buffered, hold exactly the records
@@ -96,6 +96,18 @@ Theorem failed_rename_stops_the_chain : forall a0 rest s s' l',
 Proof. exact failed_chain_l. Qed.
 Print Assumptions failed_rename_stops_the_chain.
 
+(* ---- fault model, second fault: the creation of the new main file in a rotation (ocfn(path,'w+')) raises IOError
+   once (oracle ofl); Log.file is then None and the next write raises AttributeError out of the runner: the logger
+   is ABORTED (flag [aborted]).  offered = records handed to the log by the logger runs, next = records accepted.
+   No record is lost silently: for every history, rename failure, open failure and crash point, either the process
+   died, or the failure surfaced (aborted), or EVERY record handed to the log was accepted; and the accepted
+   records dropped..next-1 are all in the retained files / buffer (dropped = rotated out beyond keep). *)
+Theorem no_record_lost_silently : forall c t0 fu rf ofl ops, let s := runfo c t0 fu rf ofl ops in
+  (crashed s = true \/ aborted s = true \/ next s = offered s) /\
+  view (files s) ++ ids (bufc s) = seq (dropped s) (next s - dropped s).
+Proof. exact no_silent_loss_l. Qed.
+Print Assumptions no_record_lost_silently.
+
 (* ---- several Logs per Logger (mrun c n ...: n logs, every logger operation visits all of them phase by phase,
    the crash fuel is handed from log to log: a crash point is any primitive operation of any log) ---- *)
 
@@ -154,3 +166,9 @@ Example c23_failed_rename :
   let s := runf c_ex 0 None (Some 2%nat) ops_ex in
   map oids (files s) = [[5; 6; 7; 8; 9; 10; 11; 12]; [13; 14; 15; 16]; [17]]%nat /\ dropped s = 5%nat.
 Proof. vm_compute. split; reflexivity. Qed.
+
+(* the 2nd creation of the new main file fails: the next run aborts loudly; records 0..8 accepted and retained *)
+Example c23_failed_open :
+  let s := runfo c_ex 0 None None (Some 1%nat) ops_ex in
+  aborted s = true /\ next s = 9%nat /\ offered s = 10%nat /\ map oids (files s) = [[0; 1; 2; 3; 4]; [5; 6; 7; 8]; []]%nat.
+Proof. vm_compute. repeat split; reflexivity. Qed.
